@@ -16,6 +16,7 @@ class FakeEndpoint:
         from twisted.python import failure
         from twisted.internet.testing import StringTransport
         self.log.append(self.name)
+        self.factory = factory
         if not self.reachable:
             # unreachable in different ways: refused, name does not resolve, connect timed out
             exc = [error.ConnectionRefusedError, error.DNSLookupError, error.TimeoutError][len(self.log) % 3]
@@ -154,6 +155,16 @@ def connect_case(reach, stage):
     clock.advance(1000)
     if len(fired) != 1:
         return '%s: connect Deferred fired again later' % what
+    # whoever asks the factory for the connection AFTER the attempt has concluded gets the same conclusion, not a Deferred that never fires
+    late = []
+    try:
+        d_late = ep.factory.getConnection()
+        has_fired = d_late.called
+        d_late.addBoth(late.append)           # (its value is what the earlier consumer's callback returned: only THAT it fires is checked)
+    except Exception as e:
+        return '%s: getConnection() after the conclusion raised %s: %s' % (what, type(e).__name__, e)
+    if not has_fired or len(late) != 1:
+        return '%s: getConnection() asked after the attempt concluded gave a Deferred that has not fired' % what
     return None
 
 
@@ -243,6 +254,19 @@ def loss_case(rnd, ncalls, timers, explicit, introspected, dup_cb, local=False):
             got[0].notifyOnDisconnect(first)
             got[0].notifyOnDisconnect(lambda o, r, name=name: ran.append((name + '_second', r)))
             second.append(name + '_second')
+    # a callback that is the bound method of an observer object nobody else refers to: the registration is what keeps it alive
+    observers = []
+    for name, got in proxies:
+        if rnd.random() < 0.5:
+            class Observer:
+                def __init__(self, tag): self.tag = tag
+                def lost(self, o, r): ran.append((self.tag, r))
+            got[0].notifyOnDisconnect(Observer(name + '_observer').lost)
+            observers.append(name + '_observer')
+    if observers:
+        import gc
+        gc.collect()
+        what += ', %d callbacks that are methods of otherwise unreferenced observers' % len(observers)
     subscribed = 0
     for name, got in proxies:
         if name.startswith('explicit') and rnd.random() < 0.6:
@@ -288,7 +312,7 @@ def loss_case(rnd, ncalls, timers, explicit, introspected, dup_cb, local=False):
         reason = lose(ep)
     except Exception as e:
         return '%s: connectionLost raised %s: %s' % (what, type(e).__name__, e)
-    want = ['conn0', 'conn1'] + (['conn1'] if dup_cb else []) + [renamed.get(n, n) for n, _ in proxies] + second
+    want = ['conn0', 'conn1'] + (['conn1'] if dup_cb else []) + [renamed.get(n, n) for n, _ in proxies] + second + observers
     if sorted(n for n, _ in ran) != sorted(want):
         return '%s: disconnect callbacks run %r, expected %r' % (what, sorted(n for n, _ in ran), sorted(want))
     if any(r is not reason for _, r in ran):
